@@ -231,3 +231,12 @@ ASSUMPTIONS = [
 ]
 EXPLANATION = ('key shapes forked from edge-case lists; numeric contents and the clock are z3 integers, so "parses as i64 but outside '
                'chrono\'s range" is a solver choice; every panic terminator reachable from a read accessor is a violation')
+
+
+# Engine K: validates on the compiled chrono that the range the MIR engine's chrono model uses is exact, and that the
+# conversions the readers use are total (loop-free code: these hold for every i64, not only within a bound)
+KANI = {
+    'quick': [('k_chrono_range', 'SUCCESSFUL'), ('k_chrono_range_reach', 'FAILED'), ('k_timestamp_opt_total', 'SUCCESSFUL')],
+    'thorough': [('k_chrono_range', 'SUCCESSFUL'), ('k_chrono_range_reach', 'FAILED'), ('k_timestamp_opt_total', 'SUCCESSFUL'),
+                 ('k_timestamp_opt_total_reach', 'FAILED'), ('k_utc_timestamp_in_range', 'SUCCESSFUL'), ('k_utc_timestamp_in_range_reach', 'FAILED')],
+}
